@@ -200,7 +200,8 @@ Definition floorZ (x : b64) : Z :=
 
 (* Random::Uniform: range = max - min at construction; getValue = min + getNextRandom()*range;
    getIntValue = (int) floor(getValue()) *)
-Definition uniform_value (mn mx : b64) (v : N) : b64 := fadd mn (fmul (res53 v) (fsub mx mn)).
+Definition uniform_expr (mn mx r : b64) : b64 := fadd mn (fmul r (fsub mx mn)).
+Definition uniform_value (mn mx : b64) (v : N) : b64 := uniform_expr mn mx (res53 v).
 Definition uniform_int (mn mx : b64) (v : N) : Z := floorZ (uniform_value mn mx v).
 
 (* sign/mantissa/exponent view used by the drivers and the bit-level I/O *)
